@@ -36,7 +36,7 @@ LEVEL_NOTE = "Trusted: the ~200-line policy model (vpchk/ctxmodel.py), each hand
 TECHNIQUE = "Hypothesis model-based testing of CryptContext against a reference policy model"
 #: thorough tier: seed-dependent tasks are repeated under this many derived seeds (run.py); the listed task functions enumerate fixed domains
 THOROUGH_REPS = 4
-DETERMINISTIC_FNS = ('t_directed',)
+DETERMINISTIC_FNS = ('t_directed', 't_scheme_flags', 't_context_kwds')
 
 PW = "pässword"
 
@@ -208,12 +208,146 @@ def o_policy(rec: Recorder, case, soft=False):
                     elif not want_nu and new is not None:
                         rec.fail("C04/spurious-rehash", "verify_and_update returns a replacement for a hash that needs no update", "policy", dict(case, probe=[scheme, rounds, i], category=cat), res, "(True, None)", soft=soft)
                         return
+            # documented aliases / keyword forms decide like the plain call, for this category too
+            for label, fn in (("hash_needs_update", lambda: ctx.hash_needs_update(h, category=cat)), ("needs_update(scheme=)", lambda: ctx.needs_update(h, scheme=owner, category=cat)),
+                              ("verify_and_update(scheme=)", lambda: ctx.verify_and_update(PW, h, scheme=owner, category=cat)[1] is not None)):
+                st, v = call(fn)
+                if st == "err" or v is not want_nu:
+                    rec.fail(f"C04/alias-differs/{label}", f"{label} decides differently from needs_update() for the same hash and category", "policy", dict(case, probe=[scheme, rounds, i], category=cat), repr(v), want_nu, soft=soft)
+                    return
+            st, v = call(lambda: ctx.verify(PW, h, scheme=owner, category=cat))
+            if st == "err" or v is not True:
+                rec.fail("C04/alias-differs/verify(scheme=)", "verify(scheme=<owner>) differs from verify()", "policy", dict(case, probe=[scheme, rounds, i], category=cat), repr(v), True, soft=soft)
+                return
             if len(model.names) >= 2 and (owner != model.default_scheme(cat) or want_nu):
                 nontrivial = True
+    # encrypt() is the documented legacy name of hash()
+    for cat in cats:
+        dflt = model.default_scheme(cat)
+        if table.T[dflt].disabled:
+            continue
+        w2 = model.rounds_window(dflt, model.cat_of(cat)) if dflt == "bsdi_crypt" else None
+        if w2 and w2[0] and w2[0] == w2[1] and w2[0] % 2 == 0:
+            continue  # single even value: unsatisfiable for bsdi_crypt (see above)
+        st, h2 = call(ctx.encrypt, PW, category=cat)
+        if st == "err" or model.owner(h2) != dflt or ctx.needs_update(h2, category=cat) is not False:
+            rec.fail("C04/alias-differs/encrypt", "encrypt() (legacy name of hash()) does not produce a default-scheme hash that needs no update", "policy", dict(case, category=cat), repr(h2), dflt, soft=soft)
+            return
     return nontrivial
 
 
-ORACLES = {"policy": o_policy}
+@oracle(PROPERTY, "scheme_flags")
+def o_scheme_flags(rec: Recorder, case, soft=False):
+    """case: {scheme, policy:{..}, made:{..}}: the scheme's own documented update flags, seen through a context configured with `policy`:
+    scrypt flags another block size / parallelism, bcrypt_sha256 an older version, on top of the cost window"""
+    from passlib.context import CryptContext
+
+    scheme, policy, made = case["scheme"], case["policy"], case["made"]
+    if not table.available(scheme):
+        return
+    ctx = CryptContext([scheme, "md5_crypt"], **{f"{scheme}__{k}": v for k, v in policy.items()})
+    h = table.handler(scheme).using(**made).hash(PW)
+    if scheme == "scrypt":
+        want = made.get("block_size", 8) != policy.get("block_size", 8) or made.get("parallelism", 1) != policy.get("parallelism", 1) or made["rounds"] != policy["rounds"]
+    else:
+        want = made.get("version", 2) < policy.get("version", 2) or made["rounds"] != policy["rounds"]
+    for cat in (None, "admin"):
+        st, got = call(ctx.needs_update, h, category=cat)
+        if st == "err" or got is not want:
+            rec.fail(f"C04/scheme-flag/{scheme}", f"needs_update() of a {scheme} hash made with {made} under the policy {policy} is {got!r}", "scheme_flags", case, repr(got), want, soft=soft)
+            return
+        st, res = call(ctx.verify_and_update, PW, h, category=cat)
+        if st == "err" or res[0] is not True or (res[1] is not None) is not want:
+            rec.fail(f"C04/scheme-flag/{scheme}/verify_and_update", "verify_and_update does not follow the scheme's update flag", "scheme_flags", case, repr(res), want, soft=soft)
+            return
+        if want and (ctx.needs_update(res[1], category=cat) is not False or ctx.verify(PW, res[1]) is not True):
+            rec.fail(f"C04/scheme-flag/{scheme}/bad-rehash", "the replacement hash still needs an update / does not verify", "scheme_flags", case, res[1], None, soft=soft)
+            return
+    fresh = ctx.hash(PW)
+    if ctx.needs_update(fresh) is not False:
+        rec.fail(f"C04/fresh-needs-update/{scheme}", "a hash the context has just produced needs an update", "scheme_flags", case, fresh, False, soft=soft)
+
+
+@oracle(PROPERTY, "context_kwds")
+def o_context_kwds(rec: Recorder, case, soft=False):
+    """case: {schemes, default, deprecated, old}: contexts mixing schemes that take user= with schemes that do not; every call passes user=.
+    The keyword reaches the schemes that take it and is dropped for the others; a replacement hash is made WITH it."""
+    from passlib.context import CryptContext
+
+    schemes, default, dep, old = case["schemes"], case["default"], case["deprecated"], case["old"]
+    kw = {"schemes": schemes, "default": default}
+    if dep:
+        kw["deprecated"] = dep
+    ctx = CryptContext(**kw)
+    takes = lambda n: "user" in table.T[n].ctx  # noqa: E731
+    if not any(takes(x) for x in schemes):
+        return  # no scheme of the context knows the keyword: passing it is a caller error (TypeError), nothing to judge
+    oh = table.handler(old)
+    h = oh.hash(PW, **({"user": "bob"} if takes(old) else {}))
+    for user in ("bob", "alice"):
+        want = True if not takes(old) else user == "bob"
+        st, v = call(ctx.verify, PW, h, user=user)
+        if st == "err" or v is not want:
+            rec.fail("C04/context-kwds/verify", "verify(user=..) through a mixed context differs from the scheme's own answer", "context_kwds", dict(case, user=user), repr(v), want, soft=soft)
+            return
+    st, res = call(ctx.verify_and_update, PW, h, user="bob")
+    want_new = old in (dep or []) or (dep == ["auto"] and old != default)
+    if st == "err" or res[0] is not True or (res[1] is not None) is not want_new:
+        rec.fail("C04/context-kwds/verify_and_update", "verify_and_update(user=..) through a mixed context fails or gives the wrong verdict", "context_kwds", case, repr(res), (True, "new" if want_new else None), soft=soft)
+        return
+    if want_new:
+        new = res[1]
+        dh = table.handler(default)
+        ok = dh.identify(new) and dh.verify(PW, new, **({"user": "bob"} if takes(default) else {}))
+        if takes(default):
+            ok = ok and not dh.verify(PW, new, user="alice")
+        if not ok or ctx.verify(PW, new, user="bob") is not True:
+            rec.fail("C04/context-kwds/bad-rehash", "the replacement hash was not made by the default scheme with the caller's user=", "context_kwds", case, new, None, soft=soft)
+            return
+    st, fresh = call(ctx.hash, PW, user="bob")
+    if st == "err" or ctx.verify(PW, fresh, user="bob") is not True or (takes(default) and ctx.verify(PW, fresh, user="alice") is not False):
+        rec.fail("C04/context-kwds/hash", "hash(user=..) through a mixed context fails or ignores the keyword", "context_kwds", case, repr(fresh), None, soft=soft)
+
+
+def t_scheme_flags(rec, seed, tier):
+    n = 0
+    for pol in ({"rounds": 2}, {"rounds": 2, "parallelism": 2}, {"rounds": 2, "block_size": 4}, {"rounds": 3, "parallelism": 2, "block_size": 4}):
+        for made in ({"rounds": 2}, {"rounds": 2, "parallelism": 2}, {"rounds": 2, "block_size": 4}, {"rounds": 3, "parallelism": 2, "block_size": 4}, {"rounds": 3}):
+            rec.ev()
+            rec.nt("scheme-flag", "scrypt", sorted(pol.items()), sorted(made.items()))
+            o_scheme_flags(rec, {"scheme": "scrypt", "policy": pol, "made": made}, soft=True)
+            n += 1
+    for pol in ({"rounds": 4}, {"rounds": 4, "version": 2}, {"rounds": 4, "version": 1}, {"rounds": 5}):
+        for made in ({"rounds": 4, "version": 1, "ident": "2a"}, {"rounds": 4, "version": 2}, {"rounds": 4, "version": 1}, {"rounds": 5, "version": 2}):
+            rec.ev()
+            rec.nt("scheme-flag", "bcrypt_sha256", sorted(pol.items()), sorted(made.items()))
+            o_scheme_flags(rec, {"scheme": "bcrypt_sha256", "policy": pol, "made": made}, soft=True)
+            n += 1
+    rec.sample("scheme_flags", {"scrypt": "policy x made over block_size/parallelism/rounds", "bcrypt_sha256": "policy x made over version/rounds"})
+    rec.subrecord("scheme-flags", exhaustive=True, cases=n)
+
+
+def t_context_kwds(rec, seed, tier):
+    import itertools
+
+    pool = ["postgres_md5", "hex_sha1", "md5_crypt", "oracle10", "msdcc"]  # no two of these claim the same strings
+    n = 0
+    for k in (2, 3):
+        for schemes in itertools.permutations(pool, k):
+            for default in schemes:
+                for dep in (None, ["auto"], [x for x in schemes if x != default][:1]):
+                    for old in schemes:
+                        rec.ev()
+                        takes = ["user" in table.T[x].ctx for x in schemes]
+                        if any(takes) and not all(takes):
+                            rec.nt("ctxkw", schemes, default, tuple(dep or ()), old)
+                        o_context_kwds(rec, {"schemes": list(schemes), "default": default, "deprecated": dep, "old": old}, soft=True)
+                        n += 1
+    rec.sample("context_kwds", {"pool": pool, "cases": n})
+    rec.subrecord("context-keywords", exhaustive=True, cases=n)
+
+
+ORACLES = {"policy": o_policy, "scheme_flags": o_scheme_flags, "context_kwds": o_context_kwds}
 
 
 def t_policy(rec, seed, tier, shard):
@@ -276,6 +410,7 @@ def t_directed(rec, seed, tier):
 
 
 def tasks(tier):
-    ts = [{"name": f"policy-{i:02d}", "fn": "t_policy", "kw": {"shard": i}} for i in range(14 if tier == "quick" else 16)]
+    ts = [{"name": "scheme-flags", "fn": "t_scheme_flags"}, {"name": "context-kwds", "fn": "t_context_kwds"}]
+    ts += [{"name": f"policy-{i:02d}", "fn": "t_policy", "kw": {"shard": i}} for i in range(14 if tier == "quick" else 16)]
     ts.append({"name": "directed", "fn": "t_directed"})
     return ts
